@@ -50,14 +50,21 @@ pub fn run(ctx: &Ctx) -> Value {
         for c in cs {
             if c < i64::MIN as i128 || c > i64::MAX as i128 { continue; }
             let c64 = c as i64;
-            let apis: &[&str] = match name { "s" => &["from_timestamp", "timestamp_opt"], "ms" => &["from_timestamp_millis", "timestamp_millis_opt"],
-                                            "us" => &["from_timestamp_micros", "timestamp_micros"], _ => &["from_timestamp_nanos", "timestamp_nanos"] };
+            // every route to the same conversion, the deprecated NaiveDateTime constructors included (still public)
+            let apis: &[&str] = match name { "s" => &["from_timestamp", "timestamp_opt", "naive_from_timestamp_opt", "fixed_timestamp_opt"], "ms" => &["from_timestamp_millis", "timestamp_millis_opt", "naive_from_timestamp_millis"],
+                                            "us" => &["from_timestamp_micros", "timestamp_micros", "naive_from_timestamp_micros", "fixed_timestamp_micros"], _ => &["from_timestamp_nanos", "timestamp_nanos", "naive_from_timestamp_nanos"] };
             for api in apis {
                 tw.emit(ev("ts.from", json!({"c": big(c), "unit": big(u), "api": api}), || json!({"r": match *api {
                     "from_timestamp" => odt(DateTime::from_timestamp(c64, 0)), "timestamp_opt" => odt(Utc.timestamp_opt(c64, 0).single()),
                     "from_timestamp_millis" => odt(DateTime::from_timestamp_millis(c64)), "timestamp_millis_opt" => odt(Utc.timestamp_millis_opt(c64).single()),
                     "from_timestamp_micros" => odt(DateTime::from_timestamp_micros(c64)), "timestamp_micros" => odt(Utc.timestamp_micros(c64).single()),
-                    "from_timestamp_nanos" => odt(Some(DateTime::from_timestamp_nanos(c64))), _ => odt(Some(Utc.timestamp_nanos(c64))) }})));
+                    "from_timestamp_nanos" => odt(Some(DateTime::from_timestamp_nanos(c64))), "timestamp_nanos" => odt(Some(Utc.timestamp_nanos(c64))),
+                    "naive_from_timestamp_opt" => { #[allow(deprecated)] let r = NaiveDateTime::from_timestamp_opt(c64, 0); opt(r, ndt) }
+                    "naive_from_timestamp_millis" => { #[allow(deprecated)] let r = NaiveDateTime::from_timestamp_millis(c64); opt(r, ndt) }
+                    "naive_from_timestamp_micros" => { #[allow(deprecated)] let r = NaiveDateTime::from_timestamp_micros(c64); opt(r, ndt) }
+                    "naive_from_timestamp_nanos" => { #[allow(deprecated)] let r = NaiveDateTime::from_timestamp_nanos(c64); opt(r, ndt) }
+                    "fixed_timestamp_opt" => opt(chrono::FixedOffset::east_opt(3600).unwrap().timestamp_opt(c64, 0).single(), |d| ndt(d.naive_utc())),
+                    _ => opt(chrono::FixedOffset::west_opt(7200).unwrap().timestamp_micros(c64).single(), |d| ndt(d.naive_utc())) }})));
                 n_from += 1;
             }
         }
@@ -92,6 +99,15 @@ pub fn run(ctx: &Ctx) -> Value {
         tw.emit(ev("sys.rt", json!({"s": big(s as i128), "nn": big(nn as i128)}), || { let d: DateTime<Utc> = st.into(); let back: SystemTime = d.into();
             json!({"dt": ndt(d.naive_utc()), "back": back == st}) }));
         n_sys += 1;
+    }
+    // date-time -> system clock: the instant is preserved (a leap second folds into the following second, which the system
+    // clock type cannot tell apart), before and after the epoch, at any offset
+    for &x in dt_lattice(&mut rng, ctx.t(150, 20_000), true).iter() {
+        let off = *rng.pick(&[0i32, 3600, -3600, 86_399]);
+        let z = chrono::FixedOffset::east_opt(off).unwrap().from_utc_datetime(&x);
+        tw.emit(ev("dt.sys", json!({"dt": ndt(x), "off": off}), || { let st: SystemTime = z.into();
+            let ns: i128 = match st.duration_since(UNIX_EPOCH) { Ok(d) => d.as_nanos() as i128, Err(e) => -(e.duration().as_nanos() as i128) };
+            json!({"r": big(ns)}) }));
     }
     tw.finish();
     json!({"events": tw.total, "from_timestamp_events": n_from, "read_back_events": dts.len(), "system_time_events": n_sys})
